@@ -157,3 +157,12 @@ def run(res, facts, tier):
     _run_c08_prev_text(res, facts, tier)
     from . import c08_text
     c08_text.run_rule(res, facts, tier)
+
+
+_run_c08_prev_repr = run
+
+
+def run(res, facts, tier):
+    _run_c08_prev_repr(res, facts, tier)
+    from . import c04_repr
+    c04_repr.run_c08_rule(res, facts, tier)
